@@ -1,0 +1,27 @@
+//go:build verif
+
+// Contracts for package apk, checked by /verif/gvc (contract-based deductive
+// verification).  This file is comment-only: with the build tag off it does
+// not exist for the compiler, with it on it adds nothing but a package clause.
+package apk
+
+//@ import "io"
+//@ import "archive/tar"
+//@ import "github.com/goreleaser/nfpm/v2"
+//
+//@ func (a *Apk) Package(info *nfpm.Info, apk io.Writer) (err error)
+//@   requires info != nil
+//@   requires !flag("failed") && !flag("clockRead") && !flag("envRead")
+//@   ensures [C06] loud: implies(err == nil, !flag("failed"))
+//@   ensures [C07] no-clock: implies(!old(info.MTime.IsZero()), !flag("clockRead"))
+//@   ensures [C07] no-env: !flag("envRead")
+//@   modifies [C11 C12] &info.Arch, &info.Contents
+//
+//@ inline func createFilesInsideTarGz(info *nfpm.Info, tw *tar.Writer, sizep *int64) (err error)
+//@   loop 0
+//@     invariant [C06] no-failure-so-far: !flag("failed")
+//@     invariant [C07] no-clock-so-far: implies(!old(info.MTime.IsZero()), !flag("clockRead"))
+//@     invariant [C11 C12] plan-still-fresh: nfpm.SpecPlanOK(info.Contents, !old(info.MTime.IsZero()))
+//
+//@ inline func combineToApk(target io.Writer, readers ...io.Reader) (err error)
+//@   loop 0 unroll 4
